@@ -62,7 +62,7 @@ def _class_of_value(e: ast.AST) -> Optional[str]:
     return None
 
 
-LATER_RULES = ' Later rules: (R12.6) hand-written visit_K methods of the template compiler pass all fields of K, empty ones included; (R12.7) the pattern list is matched as given; (R12.8) a wildcard never matches an absent child; (R12.9) leaf values are compared type-strictly; (R12.10) the candidate classes the search selects before matching are a necessary condition of a match for every kind of template (type, tree, wildcard, alternatives); (R12.11) the entry points of the pattern language ignore the same fields apart from positions; (R12.12) the wildcard matcher answers `no match` only when the match against the own template of the wildcard failed.'
+LATER_RULES = ' Later rules: (R12.6) hand-written visit_K methods of the template compiler pass all fields of K, empty ones included; (R12.7) the pattern list is matched as given; (R12.8) a wildcard never matches an absent child; (R12.9) leaf values are compared type-strictly; (R12.10) the candidate classes the search selects before matching are a necessary condition of a match for every kind of template (type, tree, wildcard, alternatives); (R12.11) the entry points of the pattern language ignore the same fields apart from positions; (R12.12) the wildcard matcher answers `no match` only when the match against the own template of the wildcard failed. (R12.13) every repetition count of a yielded quantifier expansion is drawn from the range of its element (the product of the ranges), or tested against both ends of it.'
 
 
 def check(prog: Program, tier: str) -> Result:
@@ -96,7 +96,8 @@ def check(prog: Program, tier: str) -> Result:
     _r12_10(prog, res)
     _r12_11(prog, res)
     _r12_12(prog, res)
-    res.floors.update({"R12.1": 18, "R12.2": 11, "R12.3": 3, "R12.4": 8, "R12.5": 1, "R12.6": 4, "R12.7": 4, "R12.8": 1, "R12.9": 1, "R12.10": 4, "R12.11": 4, "R12.12": 1})
+    _r12_13(prog, res)
+    res.floors.update({"R12.13": 1, "R12.1": 18, "R12.2": 11, "R12.3": 3, "R12.4": 8, "R12.5": 1, "R12.6": 4, "R12.7": 4, "R12.8": 1, "R12.9": 1, "R12.10": 4, "R12.11": 4, "R12.12": 1})
     return res
 
 
@@ -595,6 +596,132 @@ def _r12_6(prog: Program, res: Result) -> None:
     res.analysed["rebuilt_node_kinds"] = n
 
 
+# ------------------------------------------------------------------------------------------------ R12.13
+def _r12_13(prog: Program, res: Result) -> None:
+    """The expansion generator yields `[template] * count` per element.  R12.1 decides the (min, max) table; this rule decides
+    that the counts which reach the yield are taken FROM that table: each count is a component of an element of
+    itertools.product(<the ranges>) (filtering the product is fine), or - when it is computed, e.g. as what the other
+    elements leave of the length - it is tested for membership in its range / against both of its ends.  A computed
+    remainder that is only compared with the lower end repeats a `?` element twice."""
+    from ..defuse import bindings
+    fn = prog.func("core", "_iter_template_permutations")
+    binds = bindings(fn)
+
+    def origin(e: ast.AST, depth: int = 0) -> Tuple[str, Optional[ast.AST]]:
+        """('product', None) | ('computed', offending expr) | ('unknown', e)"""
+        if depth > 8:
+            return "unknown", e
+        if isinstance(e, ast.Call):
+            d = norm(e.func)
+            if d.endswith("product"):
+                return "product", None
+            if d in ("list", "tuple", "iter", "sorted", "filter") and e.args:
+                return origin(e.args[-1], depth + 1)
+            return "unknown", e
+        if isinstance(e, (ast.GeneratorExp, ast.ListComp)) and len(e.generators) == 1:
+            g = e.generators[0]
+            if isinstance(e.elt, ast.Name) and isinstance(g.target, ast.Name) and e.elt.id == g.target.id:
+                return origin(g.iter, depth + 1)       # a filtered copy
+            return "unknown", e
+        if isinstance(e, ast.Starred):
+            return origin(e.value, depth + 1)
+        if isinstance(e, ast.Subscript):
+            return origin(e.value, depth + 1)          # a slice / component of an element of the product
+        if isinstance(e, (ast.Tuple, ast.List)):
+            for x in e.elts:
+                k, bad = origin(x, depth + 1)
+                if k != "product":
+                    return k, bad
+            return "product", None
+        if isinstance(e, ast.BinOp) and isinstance(e.op, ast.Add):
+            for x in (e.left, e.right):
+                k, bad = origin(x, depth + 1)
+                if k != "product":
+                    return k, bad
+            return "product", None
+        if isinstance(e, ast.Name):
+            defs = binds.get(e.id, [])
+            if not defs:
+                return "unknown", e
+            if e.id in active:
+                return "product", None      # `xs = (x for x in xs if ..)`: the other definitions of xs decide
+            active.add(e.id)
+            try:
+                return _name_origin(e, defs, depth)
+            finally:
+                active.discard(e.id)
+        return "unknown", e
+
+    active: set = set()
+
+    def _name_origin(e, defs, depth):
+        if True:
+            for st_, v in defs:
+                if v is None and isinstance(st_, (ast.For, ast.AsyncFor)):
+                    k, bad = origin(st_.iter, depth + 1)
+                elif v is not None and isinstance(v, (ast.BinOp, ast.UnaryOp)) and not (isinstance(v, ast.BinOp) and isinstance(v.op, ast.Add) and any(isinstance(x, (ast.Tuple, ast.List, ast.Starred)) for x in (v.left, v.right))):
+                    return "computed", e
+                elif v is not None and isinstance(v, ast.Call) and norm(v.func) in ("sum", "len", "max", "min", "abs", "int"):
+                    return "computed", e
+                elif v is not None:
+                    k, bad = origin(v, depth + 1)
+                else:
+                    return "unknown", e
+                if k != "product":
+                    return k, bad
+            return "product", None
+        return "unknown", e
+
+    n = 0
+    for y in walk_own(fn.node):
+        if not isinstance(y, ast.Yield) or y.value is None:
+            continue
+        for m in ast.walk(y.value):
+            if not (isinstance(m, ast.BinOp) and isinstance(m.op, ast.Mult) and isinstance(m.right, ast.Name) and isinstance(m.left, (ast.List, ast.Tuple))):
+                continue
+            cnt = m.right.id
+            src = None
+            for c in ast.walk(y.value):
+                for g in getattr(c, "generators", []) or []:
+                    if any(isinstance(t, ast.Name) and t.id == cnt for t in ast.walk(g.target)):
+                        it = g.iter
+                        if isinstance(it, ast.Call) and norm(it.func) == "zip" and len(it.args) == 2:
+                            src = it.args[1]
+            n += 1
+            if src is None:
+                res.undecided("R12.13", fn.loc(y), fn.fq, short(y, 80), "the repetition count is not paired with the elements by zip(keys, counts)")
+                continue
+            kind, bad = origin(src)
+            if kind == "product":
+                res.ok("R12.13", fn.loc(y), fn.fq, f"{short(m, 60)} # repetition count of a yielded expansion", "every count is a component of an element of the product of the ranges")
+            elif kind == "computed" and isinstance(bad, ast.Name):
+                tests = [c for c in walk_own(fn.node) if isinstance(c, ast.Compare) and any(isinstance(x, ast.Name) and x.id == bad.id for x in [c.left] + c.comparators)]
+                member = any(isinstance(op, (ast.In, ast.NotIn)) for c in tests for op in c.ops)
+                lower = upper = False
+                for c in tests:
+                    operands = [c.left] + list(c.comparators)
+                    for i_, op in enumerate(c.ops):
+                        left_is = isinstance(operands[i_], ast.Name) and operands[i_].id == bad.id
+                        right_is = isinstance(operands[i_ + 1], ast.Name) and operands[i_ + 1].id == bad.id
+                        if isinstance(op, (ast.Lt, ast.LtE)):
+                            lower |= left_is
+                            upper |= right_is
+                        if isinstance(op, (ast.Gt, ast.GtE)):
+                            upper |= left_is
+                            lower |= right_is
+                # `x < lo` (x on the left of <) tests the LOWER end, `x > hi` the upper one
+                ok = member or (lower and upper)
+                res.decide(ok, "R12.13", fn.loc(y), fn.fq, f"{short(m, 60)} # repetition count of a yielded expansion",
+                           f"the computed count `{bad.id}` is tested against its range" if ok else
+                           f"the count `{bad.id}` is computed, not drawn from the range of its element, and is "
+                           f"{'only tested against one end of it' if lower or upper else 'never tested against it'}: "
+                           "an element is repeated more often (or less often) than its quantifier allows - `[a*, b?]` matches `[1, 'x', 'x']`")
+            else:
+                res.undecided("R12.13", fn.loc(y), fn.fq, f"{short(m, 60)} # repetition count of a yielded expansion", f"origin of the counts not readable: {short(bad, 40) if bad is not None else '?'}")
+    if n == 0:
+        res.undecided("R12.13", fn.loc(), fn.fq, "yielded expansion", "no `[template] * count` under a yield")
+
+
 # ------------------------------------------------------------------------------------------------ R12.10
 TEMPLATE_KINDS = {            # kind of template -> classes an object of that kind is an instance of (as spelled in core.py)
     "type": {"type"},
@@ -1026,6 +1153,8 @@ def _r12_7(prog: Program, res: Result) -> None:
 from ..selftest import Variant  # noqa: E402
 
 VARIANTS = [
+    Variant("last-count-is-what-the-others-leave-lower-end-only", "FIRE", "core", '    keys = node_counts.keys()\n    permutations = itertools.product(*(node_counts[key] for key in keys))\n    permutations = (p for p in permutations if sum(p) == length)\n\n    for permutation in permutations:\n        yield sum(([key[1]] * count for key, count in zip(keys, permutation)), [])\n', '    keys = list(node_counts)\n    if not keys:\n        if length == 0:\n            yield []\n        return\n\n    ranges = [node_counts[key] for key in keys]\n    last = max((i for i, counts in enumerate(ranges) if len(counts) > 1), default=0)\n    for counts in itertools.product(*ranges[:last], *ranges[last + 1 :]):\n        remainder = length - sum(counts)\n        if remainder < ranges[last].start:\n            continue\n\n        permutation = (*counts[:last], remainder, *counts[last:])\n        yield sum(([key[1]] * count for key, count in zip(keys, permutation)), [])\n', "R12.13"),
+    Variant("last-count-is-what-the-others-leave-tested-for-membership", "SILENT", "core", '    keys = node_counts.keys()\n    permutations = itertools.product(*(node_counts[key] for key in keys))\n    permutations = (p for p in permutations if sum(p) == length)\n\n    for permutation in permutations:\n        yield sum(([key[1]] * count for key, count in zip(keys, permutation)), [])\n', '    keys = list(node_counts)\n    if not keys:\n        if length == 0:\n            yield []\n        return\n\n    ranges = [node_counts[key] for key in keys]\n    last = max((i for i, counts in enumerate(ranges) if len(counts) > 1), default=0)\n    for counts in itertools.product(*ranges[:last], *ranges[last + 1 :]):\n        remainder = length - sum(counts)\n        if remainder not in ranges[last]:\n            continue\n\n        permutation = (*counts[:last], remainder, *counts[last:])\n        yield sum(([key[1]] * count for key, count in zip(keys, permutation)), [])\n'),
     Variant("leaf-values-compared-by-equality-only", "FIRE", "core", "    if type(node) is type(template) and node == template:\n        return (node,)", "    if node == template:\n        return (node,)", "R12.9"),
     Variant("leaf-type-test-as-early-exit", "SILENT", "core", "    if type(node) is type(template) and node == template:\n        return (node,)",
             "    if type(node) is not type(template):\n        return ()\n\n    if node == template:\n        return (node,)"),
